@@ -326,10 +326,24 @@ class _ConfigParserDict(collections.OrderedDict):
     return super(_ConfigParserDict, self).__contains__(key)
 
 
+class _VariablesInterpolation(configparser.ExtendedInterpolation):
+  """ExtendedInterpolation in which ${NAME} place-holders are also looked up in the [Variables] section.
+
+  [Variables] is an ordinary section rather than configparser's default section: the options of a
+  default section would appear as options of every other section of the file."""
+
+  variables_section = "Variables"
+
+  def before_get(self, parser, section, option, value, defaults):
+    if parser.has_section(self.variables_section):
+      defaults = collections.ChainMap(defaults, parser._sections[self.variables_section])
+    return super(_VariablesInterpolation, self).before_get(parser, section, option, value, defaults)
+
+
 class _RawConfigParser(configparser.RawConfigParser):
 
   def __init__(self):
-    super(_RawConfigParser, self).__init__(dict_type = _ConfigParserDict, default_section = "Variables", interpolation = configparser.ExtendedInterpolation())
+    super(_RawConfigParser, self).__init__(dict_type = _ConfigParserDict, default_section = "__no_default_section__", interpolation = _VariablesInterpolation())
     self._sections = collections.OrderedDict()
 
   def optionxform(self, option):
